@@ -149,6 +149,14 @@ def _quick_ok(p):
     return not (p.align and len(p.kinds) > 2 and any(k in LEB_KINDS for k in p.kinds))
 
 
+NESTING_KINDS = {"inner", "anon_s", "named_s", "anon_u", "named_u", "a_inner_2", "dyn", "d_inner", "anon_bits", "anon_s32", "anon_s3", "same_hdr", "ptrs"}
+
+
+def flat_aligned(ps):
+    """Aligned, non-union programs made of scalars and arrays of scalars only (no nested structure, no bit-field)."""
+    return [p for p in ps if p.align and not p.union and not any(k in BIT_KINDS or k in NESTING_KINDS for k in p.kinds)]
+
+
 def dedupe(ps):
     seen = set()
     out = []
@@ -164,7 +172,7 @@ def select(ps, pred):
     return [p for p in ps if pred(p)]
 
 
-BIT_KINDS = {k for k in KINDS if k.startswith("b") and k[1:2].isdigit() or k in ("bi8", "be8", "bf32_whole", "bc8", "bcc")}
+BIT_KINDS = {k for k in KINDS if k.startswith("b") and k[1:2].isdigit() or k in ("bi8", "be8", "bf32_whole", "bc8", "bcc", "bi16_whole", "be16s_whole")}
 ARRAY_KINDS = {k for k in KINDS if k.startswith(("a_", "d_", "z_", "eof_", "a2d"))}
 PTR_KINDS = {"ptr", "ptrs", "a_ptr_2"}
 
